@@ -248,6 +248,8 @@ func c16Specs() []c16Spec {
 			desc: "password authentication: one client never answers the password request, another one logs in and runs a Query + Close (a connection that is merely inside the start-up exchange holds up nobody)"},
 		{name: "X14", conns: []c16Conn{{"c1", [][]byte{start, pgproto.Cat(pgproto.Parse("", "q"), pgproto.Sync()), pgproto.Cat(pgproto.Parse("s", "q"), pgproto.Describe('S', "s"), pgproto.Sync())}}}, closers: 1,
 			desc: "extended protocol: Parse + Sync twice (the parser is user code too: none starts after Close returned) + Close"},
+		{name: "X15", conns: []c16Conn{{"c1", [][]byte{start, pgproto.Msg('Q', make([]byte, 5000))[:2500]}}, {"c2", [][]byte{start, q}}}, closers: 1,
+			desc: "a client that stops half-way through a message larger than the limit (its body is being skipped) next to a normal one + Close: nobody waits for the rest of that body"},
 		{name: "X8", conns: []c16Conn{{"c1", [][]byte{start, q}}}, closers: 1, acceptFault: true,
 			desc: "the listener fails with an Accept error (Serve returns it) while a connection is inside a handler, then Close"},
 	}
